@@ -92,6 +92,11 @@ impl<T: Send> Receiver<T> {
             return Ok(v);
           }
           self.shared.flush_progress();
+          if self.shared.sends_in_flight() {
+            // not drained yet (see `sends_in_flight`): the next `deq_once` reports `InFlight`
+            // and takes the waiting path below
+            continue;
+          }
           if is_registered {
             self.shared.finish_sync_recv(&notified);
           }
@@ -157,6 +162,9 @@ impl<T: Send> Receiver<T> {
             return Ok(v);
           }
           self.shared.flush_progress();
+          if self.shared.sends_in_flight() && deadline.map_or(true, |d| d > Instant::now()) {
+            continue;
+          }
           if is_registered {
             self.shared.finish_sync_recv(&notified);
           }
@@ -203,6 +211,9 @@ impl<T: Send> Receiver<T> {
           return Ok(v);
         }
         self.shared.flush_progress();
+        if self.shared.sends_in_flight() {
+          return Err(TryRecvError::Empty);
+        }
         Err(TryRecvError::Disconnected)
       }
       _ => {
@@ -251,10 +262,16 @@ impl<T: Send> Receiver<T> {
         let k2 = self.shared.deq_run(out, max);
         if is_registered {
           self.shared.finish_sync_recv(&notified);
+          is_registered = false;
+          notified.store(false, Ordering::Relaxed);
         }
         if k2 > 0 {
           self.shared.flush_progress();
           return Ok(k2);
+        }
+        if self.shared.sends_in_flight() {
+          thread::yield_now();
+          continue;
         }
         return Err(RecvError::Disconnected);
       }
@@ -372,6 +389,9 @@ impl<T: Send> AsyncReceiver<T> {
           return Ok(v);
         }
         self.shared.flush_progress();
+        if self.shared.sends_in_flight() {
+          return Err(TryRecvError::Empty);
+        }
         Err(TryRecvError::Disconnected)
       }
       _ => {
@@ -503,11 +523,14 @@ fn poll_recv<T: Send>(
         return Poll::Ready(Ok(v));
       }
       shared.flush_progress();
-      if *is_registered {
-        shared.unregister_async_recv();
-        *is_registered = false;
+      if !shared.sends_in_flight() {
+        if *is_registered {
+          shared.unregister_async_recv();
+          *is_registered = false;
+        }
+        return Poll::Ready(Err(RecvError::Disconnected));
       }
-      return Poll::Ready(Err(RecvError::Disconnected));
+      // not drained yet (see `sends_in_flight`): register and wait for the producer
     }
     _ => {}
   }
@@ -528,6 +551,10 @@ fn poll_recv<T: Send>(
         shared.unregister_async_recv();
         *is_registered = false;
         return Poll::Ready(Ok(v));
+      }
+      if shared.sends_in_flight() {
+        // the producer finishing its send wakes the registered waker
+        return Poll::Pending;
       }
       shared.unregister_async_recv();
       *is_registered = false;
@@ -599,6 +626,9 @@ fn try_recv_run<T: Send>(
       shared.flush_progress();
       return Ok(k2);
     }
+    if shared.sends_in_flight() {
+      return Err(TryRecvError::Empty);
+    }
     return Err(TryRecvError::Disconnected);
   }
   Err(TryRecvError::Empty)
@@ -626,15 +656,18 @@ fn poll_recv_batch<T: Send>(
   if !shared.senders_alive() {
     // Straggler re-drain after observing the disconnect (see drain_straggler).
     let k2 = shared.deq_run(out, max);
-    if *is_registered {
-      shared.unregister_async_recv();
-      *is_registered = false;
+    if k2 > 0 || !shared.sends_in_flight() {
+      if *is_registered {
+        shared.unregister_async_recv();
+        *is_registered = false;
+      }
+      if k2 > 0 {
+        shared.flush_progress();
+        return Poll::Ready(Ok(k2));
+      }
+      return Poll::Ready(Err(RecvError::Disconnected));
     }
-    if k2 > 0 {
-      shared.flush_progress();
-      return Poll::Ready(Ok(k2));
-    }
-    return Poll::Ready(Err(RecvError::Disconnected));
+    // not drained yet (see `sends_in_flight`): register and wait for the producer
   }
 
   shared.register_async_recv(cx.waker().clone());
@@ -650,6 +683,10 @@ fn poll_recv_batch<T: Send>(
   }
   if !shared.senders_alive() {
     let k4 = shared.deq_run(out, max);
+    if k4 == 0 && shared.sends_in_flight() {
+      // the producer finishing its send wakes the registered waker
+      return Poll::Pending;
+    }
     shared.unregister_async_recv();
     *is_registered = false;
     if k4 > 0 {
